@@ -122,11 +122,47 @@ def run(tier, seed):
                 elif m.strip() == "unsafe" and not i.startswith("ABORT"):
                     rep.count("overflow_predicted_but_not_observed")
             families += 1
+        # 7. the numerical kernels (rotation P=4, uniform order 3) under the sanitizers: single tree, OpenMP, target/source, periodic
+        def build_num(kp):
+            kernel, param = kp
+            name = "h_num_san_k%d_%d" % (kernel, param)
+            key = vlib.repo_src_hash([os.path.join(vlib.ROOT, "harness", "h_num.cpp"), os.path.join(vlib.ROOT, "harness", "common.hpp"), name])
+            out = os.path.join(vlib.BUILD, "%s-%s" % (name, key))
+            if os.path.exists(out): return out, None
+            for f in os.listdir(vlib.BUILD):
+                if f.startswith(name + "-") and not f.endswith(".tmp"):
+                    try: os.remove(os.path.join(vlib.BUILD, f))
+                    except OSError: pass
+            tmp = "%s.%d.tmp" % (out, os.getpid())
+            cmd = ["g++", "-std=c++17", "-O1", "-g", "-UNDEBUG", "-fopenmp", "-ffp-contract=off", "-fsanitize=address,undefined", "-fno-sanitize-recover=all",
+                   "-ftrivial-auto-var-init=pattern", "-DKERNEL=%d" % kernel, "-DPARAM=%d" % param, "-DREALT=double", "-I" + os.path.join(vlib.REPO, "src"),
+                   "-I" + os.path.join(vlib.ROOT, "harness"), os.path.join(vlib.ROOT, "harness", "h_num.cpp"), "-o", tmp, "-lfftw3", "-lfftw3f"]
+            p = subprocess.run(cmd, capture_output=True, text=True)
+            if p.returncode != 0: return None, p.stderr[-800:]
+            os.replace(tmp, out)
+            return out, None
+        from concurrent.futures import ThreadPoolExecutor
+        with ThreadPoolExecutor(max_workers=2) as ex:
+            nb = list(ex.map(build_num, [(0, 4), (1, 3)]))
+        ncases = ["num 3 10 0 0 200 3 0.5 0.5 0.5 1.0 1", "num 4 7 1 0 300 4 3.1 -2.7 0.4 2.3 1", "num 4 7 0 1 300 5 0.5 0.5 0.5 1.0 0",
+                  "numt 4 10 0 0 200 150 3 0.5 0.5 0.5 1.0 1 1", "numt 3 3 1 1 120 90 8 3.1 -2.7 0.4 2.3 1 0", "nump 3 10 0 1 60 4 0.5 0.5 0.5 1.0 1",
+                  "nump 2 10 0 -1 40 4 0.5 0.5 0.5 1.0 1", "nump 3 3 1 0 50 9 3.1 -2.7 0.4 2.3 0", "num 1 10 0 0 30 3 0.5 0.5 0.5 1.0 1", "num 2 10 0 0 50 3 0.5 0.5 0.5 1.0 1",
+                  "num 5 30 0 0 600 11 -1.5 0.25 10.0 0.37 1 6"]
+        for (kname, (nbin, nerr)) in zip(("rotation", "uniform"), nb):
+            if not nbin:
+                rep.violation(dict(kind="build", clause="h_num_san", has_input=True), "sanitized %s kernel harness does not compile: %s" % (kname, nerr[-300:]), dict(stderr=nerr))
+                continue
+            pn = os.path.join(sdir, "num_%s.cases" % kname); vlib.write_cases(pn, ncases)
+            for c, i in zip(ncases, vlib.run_impl(nbin, pn, env=dict(vlib.SAN_ENV, OMP_NUM_THREADS="4"))):
+                rep.evaluations += 1
+                if i.startswith("ABORT"):
+                    rep.violation(dict(kind="abort", clause="numeric:" + kname, has_input=True), "%s kernel aborted under the sanitizers on `%s`: %s" % (kname, c, i), dict(case=c, impl=i))
+            families += 1
         sites = assert_sites()
         rep.coverage["explanation"] = ("Proved part: %d obligations re-checked (no internal assertion of the modelled executors/builders can fire on any tree satisfying the invariant; stack-array capacities; accessor bounds; "
                                        "task captures; overflow guard of the index bit loop with its refutation beyond the guard). Observed part (cannot be carried by a model: addresses, lifetimes, leaks): %d harness families "
                                        "run under ASan+LSan+UBSan with assertions enabled; any report is a violation. assert sites in src: %d in %d files; those of the modelled files are mirrored as CAssert ids in the model, "
-                                       "those of the numerical kernels are not covered." % (n_obl, families, sum(sites.values()), len(sites)))
+                                       "those of the numerical kernels are exercised (not modelled) by the sanitized numeric family." % (n_obl, families, sum(sites.values()), len(sites)))
         rep.coverage["assert_sites"] = sites
         rep.coverage["rule"] = "union of the input spaces of C01/C06/C09/C10/C13/C03 (smaller counts) + index guard boundary; non-trivial = every case; distinct by text"
         rep.nontrivial = set(range(rep.evaluations))
